@@ -65,7 +65,7 @@ def run(R, job):
         kids = [tree(d - 1, objs) for _ in range(r.choice([0, 1, 2, 3]))]
         at = {}
         for _ in range(r.choice([0, 1, 2])):
-            at[r.choice(["id", "class", "data_x"])] = r.choice(["v", "a b", core.HTML("&h;"), True, 3])
+            at[r.choice(["id", "class", "data_x", "x__", "x", "y_-", "z--"])] = r.choice(["v", "a b", core.HTML("&h;"), True, 3])
         return core.Tag(name, *kids, at, _add_ws=r.random() < 0.5)
 
     def snap(x, seen=None):
